@@ -1,5 +1,8 @@
 // correspondence driver for gmlc/concurrency/DelayedDestructor.hpp  (model: coq/Model/DelayedDestructorModel.v)
-// cfg: locked(1: DelayedDestructor, 0: DelayedDestructorSingleThread)  has_callback  n  throw_index_1 .. throw_index_n
+// cfg: locked(1: DelayedDestructor, 0: DelayedDestructorSingleThread)  has_callback  n  throw_index_1 .. throw_index_n  [kind]
+//      kind (optional, default 0): 0 = element type X with a user-provided destructor (the instrumented user code);
+//      1 = trivially destructible element type Y handed over as shared_ptr<Y>(p, deleter): the custom deleter is the
+//      instrumented user code (same re-entry modes); for the model the deleter is the destructor step.
 // ops: 1 slot dm cm = Add | 2 slot = Drop | 3 = destroyObjects() | 4 d = destroyObjects(d ms) | 5 = size()
 //      6 = destroy the container | 7 slot = add the slot's object a second time
 // dm / cm: what the element destructor / the callback re-enters on the same container:
@@ -16,18 +19,39 @@
 #undef std
 #include "driver.hpp"
 
-struct DDComp;
-static DDComp* g_comp = nullptr;
+struct DDBase {
+    virtual ~DDBase() = default;
+    virtual long op(int tid, const std::vector<long>& o) = 0;
+    virtual void final(std::vector<std::vector<long>>& out) = 0;
+    virtual void destructor(long id, const void* x) = 0;
+};
+static DDBase* g_comp = nullptr;
 static thread_local bool t_in_drop = false;
 
 struct X {
     long id;
     explicit X(long i): id(i) {}
-    ~X();
+    ~X()
+    {
+        if (g_comp != nullptr) g_comp->destructor(id, this);
+    }
+    static std::shared_ptr<X> make(long id) { return std::make_shared<X>(id); }
 };
-using XP = std::shared_ptr<X>;
+struct Y {
+    long id;
+    static std::shared_ptr<Y> make(long id)
+    {
+        return std::shared_ptr<Y>(new Y{id}, [](Y* p) {
+            if (g_comp != nullptr) g_comp->destructor(p->id, p);
+            delete p;
+        });
+    }
+};
+static_assert(std::is_trivially_destructible<Y>::value, "Y must be trivially destructible");
 
-struct DDComp {
+template<class E>
+struct DDComp: DDBase {
+    using XP = std::shared_ptr<E>;
     // type-erased access to the container (no virtual calls on an object under destruction)
     std::function<long()> f_destroy, f_size;
     std::function<long(long)> f_delay;
@@ -38,7 +62,7 @@ struct DDComp {
     long nobj = 0;
     long busy = 0;
     std::map<long, XP> slots;
-    std::vector<std::weak_ptr<X>> wk{1};
+    std::vector<std::weak_ptr<E>> wk{1};
     std::vector<long> dcount{0}, cbcount{0}, dmode{0}, cmode{0};
 
     template<class DD>
@@ -67,16 +91,16 @@ struct DDComp {
         using namespace gmlc::concurrency;
         vs::vec_guard().disarm();
         if (locked) {
-            auto* p = hascb ? new DelayedDestructor<X>(cb) : new DelayedDestructor<X>();
+            auto* p = hascb ? new DelayedDestructor<E>(cb) : new DelayedDestructor<E>();
             bind(p);
             // lockset rule: until ~DelayedDestructor starts, the vector is touched only under destructionLock
             vs::vec_guard().arm(&p->ElementsToBeDestroyed, &p->destructionLock);
         } else {
-            auto* p = hascb ? new DelayedDestructorSingleThread<X>(cb) : new DelayedDestructorSingleThread<X>();
+            auto* p = hascb ? new DelayedDestructorSingleThread<E>(cb) : new DelayedDestructorSingleThread<E>();
             bind(p);
         }
     }
-    ~DDComp()
+    ~DDComp() override
     {
         vs::vec_guard().disarm();
         slots.clear();
@@ -100,7 +124,7 @@ struct DDComp {
     void add_new(long dm, long cm)
     {
         long id = newobj(dm, cm);
-        XP p = std::make_shared<X>(id);
+        XP p = E::make(id);
         wk[id] = p;
         f_add(std::move(p));
     }
@@ -116,7 +140,7 @@ struct DDComp {
             default: add_new(m == 5 ? 2 : m - 1, 0); break;
         }
     }
-    bool in_vector(const X* x) const
+    bool in_vector(const void* x) const
     {
         for (const auto& e : *rawvec)
             if (e.get() == x) return true;
@@ -140,9 +164,8 @@ struct DDComp {
         }
         reenter(cmode[id]);
     }
-    void destructor(const X* x)
+    void destructor(long id, const void* x) override
     {
-        long id = x->id;
         if (!vs::active()) {
             dcount[id]++;
             return;
@@ -154,7 +177,7 @@ struct DDComp {
         if (cstate == 1 && in_vector(x)) return;  // the vector member is being destroyed: hands off
         reenter(dmode[id]);
     }
-    long op(int, const std::vector<long>& o)
+    long op(int, const std::vector<long>& o) override
     {
         long rv = 0;
         bool counted = o[0] != 2;
@@ -166,7 +189,7 @@ struct DDComp {
         switch (o[0]) {
             case 1: {
                 long id = newobj(o[2], o[3]);
-                XP p = std::make_shared<X>(id);
+                XP p = E::make(id);
                 wk[id] = p;
                 if (o[1] != 0 && slots.find(o[1]) == slots.end()) slots[o[1]] = p;
                 f_add(std::move(p));
@@ -208,14 +231,23 @@ struct DDComp {
         if (counted) --busy;
         return rv;
     }
-    void final(std::vector<std::vector<long>>& out)
+    void final(std::vector<std::vector<long>>& out) override
     {
         out.push_back({nobj, cstate == 0 ? (long)rawvec->size() : 0, cstate == 0 ? 0 : 1, vs::plan().calls});
         for (long id = 1; id <= nobj; ++id) out.push_back({id, (long)wk[id].use_count(), dcount[id], cbcount[id]});
     }
 };
-X::~X()
-{
-    if (g_comp != nullptr) g_comp->destructor(this);
-}
-int main(int argc, char** argv) { return vs::drive<DDComp>(argc, argv); }
+// the element type is selected by the case
+struct DDAny {
+    std::unique_ptr<DDBase> c;
+    explicit DDAny(const vs::Case& cs)
+    {
+        long n = cs.cfg.size() >= 3 ? cs.cfg[2] : 0;
+        long kind = (long)cs.cfg.size() > 3 + n ? cs.cfg[3 + n] : 0;
+        if (kind == 1) c.reset(new DDComp<Y>(cs));
+        else c.reset(new DDComp<X>(cs));
+    }
+    long op(int t, const std::vector<long>& o) { return c->op(t, o); }
+    void final(std::vector<std::vector<long>>& out) { c->final(out); }
+};
+int main(int argc, char** argv) { return vs::drive<DDAny>(argc, argv); }
